@@ -676,6 +676,61 @@ def oh_compose(c, a, st, v):
                   mk_concat([ic_sizes(p.f[leg]), ic_sizes(q.f[leg])]))
     # the glued node set: one class per connected component of the pre-quotient node space
     c.eq(st, "compose: incidence and legs land in the quotient node set", tgt(r.f["s"]), inv.values_len(h.f["w"]))
+    # the gluing itself (C01/C04): with q the coequalizer of f's target leg and g's source leg (both injected into
+    # the disjoint union of the node sets), every leg, every incidence list and every node label of the result is
+    # the operand's, mapped through q — and through nothing else.  The analysis cannot prove isomorphism, so a result
+    # not written through q (a shortcut returning an operand) is reported.
+    compose_gluing(c, st, r, f, g, ok_order or (fh, gh))
+
+
+def _find_cc(t, out):
+    if isinstance(t, tuple):
+        if t and t[0] == "cc" and len(t) == 4:
+            out.append(t)
+        for x in t:
+            _find_cc(x, out)
+    elif isinstance(t, Poly):
+        for a_ in t.atoms():
+            _find_cc(a_, out)
+
+
+def compose_gluing(c, st, r, f, g, order):
+    fh, gh = f.f["h"], g.f["h"]
+    first_is_f = order[0] is fh
+    A, B = (f, g) if first_is_f else (g, f)          # A's nodes come first in the disjoint union
+    nA = inv.values_len(A.f["h"].f["w"])
+    nB = inv.values_len(B.f["h"].f["w"])
+
+    def inj(x, t):
+        return t if x is A else mk_shift(nA, t)
+    lf, lg = inj(f, tab(f.f["t"])), inj(g, tab(g.f["s"]))
+    cands = []
+    _find_cc(normalise(st, tab(r.f["s"])), cands)
+    _find_cc(normalise(st, tab(r.f["t"])), cands)
+    q = None
+    for cc in cands:
+        x, y, n = cc[1], cc[2], as_poly(cc[3])
+        if st.eq(n, nA + nB) and ((terms_equal(st, x, lf) and terms_equal(st, y, lg)) or
+                                  (terms_equal(st, x, lg) and terms_equal(st, y, lf))):
+            q = cc
+            break
+    c.ob("ENS", "compose: the boundary nodes are glued by the coequalizer of f's target leg and g's source leg",
+         f"result legs are written through cc({show_term(lf)[:80]}, {show_term(lg)[:80]}, |f.w|+|g.w|): got s = "
+         f"{show_term(tab(r.f['s']))[:160]}", q is not None, st, actual=tab(r.f["s"]))
+    if q is None:
+        return
+    c.teq(st, "compose: source leg = f's source leg through the gluing", tab(r.f["s"]),
+          ("gather", q, inj(f, tab(f.f["s"]))))
+    c.teq(st, "compose: target leg = g's target leg through the gluing", tab(r.f["t"]),
+          ("gather", q, inj(g, tab(g.f["t"]))))
+    for leg in ("s", "t"):
+        c.teq(st, f"compose: {leg} incidence = the operands' incidence through the gluing, nothing else",
+              tab(r.f["h"].f[leg].f["values"]),
+              ("gather", q, mk_concat([tab(A.f["h"].f[leg].f["values"]),
+                                       mk_shift(nA, tab(B.f["h"].f[leg].f["values"]))])))
+    c.teq(st, "compose: every node keeps its label through the gluing (q ; w' = w_f ++ w_g)",
+          ("gather", r.f["h"].f["w"].f["0"].t, q),
+          mk_concat([A.f["h"].f["w"].f["0"].t, B.f["h"].f["w"].f["0"].t]))
 
 
 @spec(f"{S_OH}::<K, O, A>::tensor_operations")
@@ -1390,6 +1445,29 @@ def native_functor_guard(c, a, st, v):
         n = n_nodes(f)
         c.eq(st, "witness: one segment per input node", t_len(ic_sizes(wit)), n)
         c.eq(st, "witness: values index the result's nodes", tgt(wit.f["values"]), n_nodes(res))
+        # content of the witness: node i is related to |F(label of i)| output nodes, in order, and those output
+        # nodes carry exactly the labels F(label of i)
+        nodes_t = hyp(f).f["nodes"].t
+        sizes_ok, labels_ok = False, False
+        got_sizes = ic_sizes(wit)
+        got_labels = mk_gather(st, normalise(st, hyp(res).f["nodes"].t), normalise(st, tab(wit.f["values"])))
+        for fkey in functor_keys(st) or ["functor"]:
+            el = ("LFobj", "map_object", fkey, ("elem", nodes_t))
+            for sizes in (("lens", ("lmap", nodes_t, ("seq", el)), el), ("lens", nodes_t, el)):
+                if terms_equal(st, got_sizes, sizes):
+                    sizes_ok = True
+            for flat in (("flat", ("lmap", nodes_t, ("seq", el)), el), ("flat", nodes_t, el)):
+                if terms_equal(st, got_labels, flat):
+                    labels_ok = True
+        c.ob("ENS", "witness: node i is related to |F(label of i)| output nodes",
+             f"segment sizes ≡ lens(nodes, F(label)): got {show_term(got_sizes)[:200]}", sizes_ok, st, actual=got_sizes)
+        # the node labels of the operation images are the functor's own (arbitrary): a witness that selects among
+        # them is wrong for some functor — that is a violation, not an imprecision of the analysis
+        into_images = _mentions_loopvar(got_labels, "lax::functor::traits::map_operations")
+        c.ob("ENS", "witness: the related output nodes carry the labels F(label of i), in order",
+             f"gather(result nodes, witness values) ≡ flat(nodes, F(label)): got {show_term(got_labels)[:300]}"
+             + (" (selects nodes of the operation images)" if into_images else ""),
+             labels_ok, st, actual=None if into_images else got_labels)
 
 
 def _walk_terms(st, visit):
@@ -1405,6 +1483,17 @@ def _walk_terms(st, visit):
         walk_t(p)
     for t in st.bnd:
         walk_t(t)
+
+
+def _mentions_loopvar(t, fn_suffix):
+    if isinstance(t, tuple):
+        if len(t) >= 2 and t[0] == "loopvar" and isinstance(t[1], tuple) and t[1] and isinstance(t[1][0], str) \
+                and t[1][0].endswith(fn_suffix):
+            return True
+        return any(_mentions_loopvar(x, fn_suffix) for x in t)
+    if isinstance(t, Poly):
+        return any(_mentions_loopvar(a_, fn_suffix) for a_ in t.atoms())
+    return False
 
 
 def loopvar_leaves(st, fn_suffix, var):
@@ -1885,6 +1974,18 @@ def arrow_is_convex(c, a, st, v):
         bad = c.I.assume(st.copy(), f_and(f, f_not(goal)))
         c.ob("ENS", f"is_convex_subgraph: true only for monomorphisms (the {nm} map is injective)",
              f"result ⇒ {show_formula(goal)}", not bad, st)
+
+
+@spec("lax::var::forget::ForgetMonogamous as lax::functor::traits::Functor<O, A, O, A>>::map_operation")
+def forget_monogamous_map_operation(c, a, st, v):
+    """forget_monogamous: the same replacement, but only for 1 → 1 variable hyperedges."""
+    forget_map_operation(c, a, st, v)
+    h = hyp(v)
+    if not st.eq(t_len(h.f["edges"].t), 1):
+        ns, nt = t_len(a["source"].t), t_len(a["target"].t)
+        c.ob("ENS", "forget_monogamous removes only 1 → 1 variable hyperedges",
+             f"hyperedge removed ⇒ len(source) == 1 ∧ len(target) == 1 on this path (got {show_poly(ns)}, {show_poly(nt)})",
+             st.eq(ns, 1) and st.eq(nt, 1), st)
 
 
 @spec("lax::var::forget::Forget as lax::functor::traits::Functor<O, A, O, A>>::map_operation")
